@@ -492,6 +492,8 @@ def gen_eds_world(rng, stats=None, force=None):
     e = K.eds(NS, EDS, eds_tpl, strategy=strat, annotations=ann, status=est,
               labels=rng.choice([None, None, {"team": "x"}]))
     if rng.random() < 0.08:
+        import copy
+        e["spec"]["template"] = copy.deepcopy(e["spec"]["template"])     # the replica sets share the template dict
         e["spec"]["template"]["metadata"]["name"] = "named"
     objs.append(e)
     objs += rss
